@@ -59,8 +59,8 @@ class ComplexSqrt(NumPyPrintable):
         printer.module_imports["cmath"].add("sqrt as csqrt")
         x = printer._print(self.args[0])
         return (
-            f"(((1j*sqrt(-{x}))"
-            f" if isinstance({x}, (float, int)) and ({x} < 0)"
+            f"(((1j*sqrt(-({x})))"
+            f" if isinstance({x}, (float, int)) and (({x}) < 0)"
             f" else (csqrt({x}))))"
         )
 
